@@ -40,6 +40,7 @@ class Undecided(Exception):
 # dropped items (D1, D2) -- applied to every extracted text, logged with counts
 DROP_RULES = [
     ('D2', re.compile(r'[ \t]*#\[cfg\(dev\)\]\s*\n[ \t]*(?:eprintln|println)!\((?:[^()]|\([^()]*\))*\);[ \t]*\n')),
+    ('D7', re.compile(r'[ \t]*(?:eprintln|println)!\((?:[^()]|\([^()]*\))*\);?[ \t]*(?=\n)')),
     ('D1', re.compile(r'[ \t]*#\[(?:derive|error|allow|default)\b[^\]]*\][ \t]*\n')),
     ('D1', re.compile(r'[ \t]*///[^\n]*\n')),
 ]
@@ -79,6 +80,7 @@ class FnSpec:
         self.lcalls = []
         self.nocalls = []
         self.recommends = []
+        self.attrs = []
         self.key = None
         self.src_span = None
         self.gen_span = None
@@ -226,6 +228,8 @@ class Unit:
                 spec.header = rest; cur = None
             elif word == 'ghost':
                 spec.ghost = rest; cur = None
+            elif word == 'attr':
+                spec.attrs.append(rest); cur = None
             elif word == 'ret':
                 spec.ret = rest; cur = None
             elif word in ('requires', 'ensures'):
@@ -324,6 +328,12 @@ class Unit:
         body = text[s:bc + 1]
         body, log = self.apply_rewrites(body, [], f, line_of(text, s))
         gen.rewrite_log += log
+        # R4: private fields become pub (visibility has no run-time meaning; Verus treats a type with
+        # private fields as opaque outside its module)
+        def _pub(m):
+            gen.rewrite_log.append(dict(rule='R4', file=f, before=m.group(0).strip(), after='pub ' + m.group(0).strip()))
+            return m.group(1) + 'pub ' + m.group(2)
+        body = re.sub(r'(?m)^(\s+)([a-z_]\w*\s*:\s)', _pub, body)
         first = len(gen.lines) + 1
         gen.lines.append('// ---- extracted type %s from %s:%d-%d' % (name, f, line_of(text, s), line_of(text, bc)))
         for k, ln in enumerate(body.split('\n')):
@@ -552,6 +562,8 @@ class Unit:
         # ---- emit -----------------------------------------------------------------------
         gen.lines.append('// ---- extracted fn %s from %s:%d-%d' % (spec.key, f, src_first, src_last))
         gfirst = len(gen.lines) + 1
+        for a in spec.attrs:
+            gen.lines.append(a)
         for ln in hdr.rstrip().split('\n'):
             gen.lines.append(ln)
         self.emit_clauses(gen, 'requires', spec.requires)
